@@ -107,7 +107,7 @@ Lemma step_app_cases : forall h o,
   (flags a' = flags a /\ forall acc, pending1 (o, r) acc = acc).
 Proof.
   intros h o. cbn zeta.
-  destruct o as [pn ecn lvl t ae | p | lvl | lvl now only | pn lvl | |]; cbn [step].
+  destruct o as [pn ecn lvl t ae | p | lvl | lvl now only | pn lvl | | | lvl n]; cbn [step].
   - unfold h_recv.
     assert (Happ : forall low, is_app lvl = true ->
       let s := (let (a', r) := app_recv (hApp h) pn ecn t ae in
@@ -167,6 +167,8 @@ Proof.
   - right; right. split; reflexivity.
   - right; right. split; reflexivity.
   - right; right. split; reflexivity.
+  - right; right. split; [| reflexivity]. cbn [fst]. unfold h_trunc.
+    destruct (lvl =? rph_EncInitial); [| destruct (lvl =? rph_EncHandshake); [| destruct (lvl =? rph_Enc1RTT)]]; reflexivity.
 Qed.
 
 (** * Invariant D *)
